@@ -1661,6 +1661,9 @@ impl<'a> TCk<'a> {
         let mut t2 = t.clone();
         t2.reduce();
         one_pass(&t2, "after reduce")?;
+        if !self.run.thorough() {
+            return Ok(());
+        }
         // a second reduce must not change anything
         t2.reduce();
         one_pass(&t2, "after reduce twice")
@@ -1934,7 +1937,8 @@ fn main() {
     let depth = if th { 4 } else { 3 };
     let tz = trans_bfs::<i64>(&run, depth, 1, &[1]);
     lap(&run, "Trans histories i64");
-    let tf = trans_bfs::<FF<3>>(&run, depth, 1, &[1, 2]);
+    let depth_f3 = if th { 4 } else { 2 };
+    let tf = trans_bfs::<FF<3>>(&run, depth_f3, 1, &[1, 2]);
     lap(&run, "Trans histories FF<3>");
     let tq = trans_bfs::<Ratio<i64>>(&run, if th { 3 } else { 2 }, 1, &[2]);
     lap(&run, "Trans histories Ratio<i64>");
@@ -1961,13 +1965,13 @@ fn main() {
         "trans": {
             "depth_bound": depth,
             "i64": {"states": tz.states, "transitions": tz.transitions, "new_states_per_level": tz.per_level},
-            "FF<3>": {"states": tf.states, "transitions": tf.transitions, "new_states_per_level": tf.per_level},
+            "FF<3>": {"states": tf.states, "transitions": tf.transitions, "new_states_per_level": tf.per_level, "depth_bound": depth_f3, "partner_shifts": [1, 2]},
             "Ratio<i64>": {"states": tq.states, "transitions": tq.transitions, "new_states_per_level": tq.per_level, "depth_bound": if th { 3 } else { 2 }},
             "full_pair_product_executions": full,
             "observation_passes": run.get("trans_observation_passes"),
             "state": "(src dim, tgt dim, F, B, class of the number of stored factors 0/1/>=2); a witness history rebuilds the real Trans",
             "actions": "append(f, phi(f)^T) for all 0/+-1 f of shape k x tgt (k,tgt <= 2); append_perm(all p); sub(all ordered selections of distinct indices); reduce; merge(other)/merged(&other) in both roles with every state reached at level <= 1; initial states id(0..=3)",
-            "invariant": "src/tgt dims; forward_mat = F; backward_mat = B; forward(v) = F v and backward(w) = B w for all basis vectors and (1,2,..); is_id() => F = B = I; all of it again after reduce() and after a second reduce()",
+            "invariant": "src/tgt dims; forward_mat = F; backward_mat = B; forward(v) = F v and backward(w) = B w for all basis vectors and (1,2,..); is_id() => F = B = I; all of it again after reduce() (thorough: and after a second reduce())",
         },
         "evaluations": run.get("evaluations"),
         "distinct_nontrivial": run.get("cases_nontrivial"),
